@@ -513,6 +513,11 @@ namespace GeographicLib {
           }
         }
         node.Check(numpoints, treesize, bucket);
+        // Children are always saved before their parent.  Anything else
+        // isn't a tree (a cycle makes Search loop forever).
+        if (node.index >= 0 &&
+            !(node.data.child[0] < i && node.data.child[1] < i))
+          throw GeographicLib::GeographicErr("Bad child pointers");
         tree.push_back(node);
       }
       _tree.swap(tree);
